@@ -241,6 +241,15 @@ def c02_scope(tier):
               'Bundle h = { ("signal-A", 1), ("signal-B", 2) } * 3;\n'))
     P.append(("nested-merge", XYS + "Bundle a = { x, y };\nBundle b = { a, s };\nBundle c = b + 1;\n"))
     P.append(("scalar-shared-gate", B1 + S + "Bundle g = (s > 2) : b;\nBundle m = b * s;\n"))
+    # one bundle and one scalar shared by consumers of different kinds: every consumer must find the bundle and the scalar on different wires
+    P.append(("scalar-shared-gate-filter", B1 + S + "Bundle g = (s > 2) : b;\nBundle f = (b > s) : b;\n"))
+    P.append(("scalar-shared-gate-filter-const", B1 + S + "Bundle g = (b > s) : 1;\nBundle h = (s > 2) : b;\n"))
+    P.append(("scalar-shared-all-own-gate", B1 + S + "Bundle g = (all(b) > s) : b;\nBundle m = b + s;\n"))
+    P.append(("scalar-shared-any-own-gate", B1 + S + "Bundle g = (any(b) < s) : b;\nBundle m = b * s;\nBundle f = (b != s) : b;\n"))
+    P.append(("scalar-shared-merged-bundle", 'Signal x = ("signal-A", 6);\nSignal y = ("signal-B", 2);\nBundle c = { x, y };\n' + S + "Bundle g = (s > 2) : c;\nBundle m = c * s;\n"))
+    P.append(("gate-two-conditions", B1 + S + M + "Bundle g = (s > m) : b;\nBundle h = (m > 1) : b;\n"))
+    P.append(("gate-condition-own-member", B1 + 'Bundle g = (b["signal-A"] > 2) : b;\nSignal c = b["signal-B"];\nBundle h = (c > 2) : b;\nBundle k = b * c;\n'))
+    P.append(("gate-any-other-bundle", B1 + S + 'Bundle b2 = { ("signal-F", 7) };\nBundle g = (any(b) > s) : b2;\n'))
     P.append(("all-sig-of-each", B1 + S + "Signal r = all(b * 2) >= s;\nSignal q = any(b + 1) < s;\n"))
     P.append(("all-sig-member-name", B1 + M + "Signal r = all(b) > m;\n"))
     V = 'Signal v = ("signal-V", 9);\n'
@@ -498,6 +507,11 @@ def c20_scope(tier):
     P.append(("alias-named-like-param", 'func f(Signal v, Signal total) { return v * 2 + total; }\n' + X + 'Signal k = ("signal-C", 42);\n'
               "Signal c = x + 1;\nSignal v = c;\nSignal total = k;\nSignal r = f(c, y);\n"))
     P.append(("consumed-by-entity", X + 'Signal c = x > 3;\nEntity l = place("small-lamp", 0, 0);\nl.enable = c;\nSignal r = y + 1;\n'))
+    # twins: names bound to identical expressions stay findable when the optimiser merges their nodes
+    P.append(("twin-names", X + "Signal s1 = x + y;\nSignal s2 = x + y;\nSignal p = (x > 3) : y;\nSignal q = (x > 3) : y;\n"))
+    P.append(("anonymous-then-named-twin", X + 'Bundle b = { ("signal-C", 20), ("signal-D", 5) };\nBundle g = (x + y > 2) : b;\nSignal s = x + y;\n'))
+    P.append(("three-twins-one-consumed", X + "Signal a = x * y;\nSignal b2 = x * y;\nSignal c = x * y;\nSignal d = a + 1;\n"))
+    P.append(("twin-bundles", 'Bundle b = { ("signal-C", 20), ("signal-D", 5) };\nBundle f1 = b * 2;\nBundle f2 = b * 2;\n'))
     # a bundle returned by a function is a named result like any other
     P.append(("func-bundle-out", 'func pack(Signal a, Signal b) {\n  Bundle t = { a, b };\n  return t;\n}\nfunc sc(Signal a, Signal b) {\n  Bundle t = { a, b };\n  return t * 2;\n}\n'
               + X + "Bundle r = pack(x, y);\nBundle q = sc(x, y);\n"))
